@@ -676,7 +676,7 @@ def run_family(ctx, elk, m, fams, tag, budget):
             elif o[0] == "A" and o[2] != o0[2]:
                 change = "stdout"
             if change:
-                fails.append((len(srcs[eid]), "%s:%s:%s" % (label, detail, change),
+                fails.append((len(srcs[eid]), "%s:%s:%s" % (label, re.sub(r":in-[a-z]+", "", detail), change),
                               "edit `%s` (%s) changed the result: original %s, edited %s" % (label, detail, o0[:2], o[:2]),
                               eid, o, o0))
         if eid in model_in:
@@ -726,9 +726,10 @@ def run(ctx):
         "f.(), m()): with the FIXED register handling (previous returnType/throwType restored on exit) inserting an "
         "unused local with a value or closure initialiser before any statement of any method body, or anywhere in the "
         "top-level statements, leaves the number of diagnostics - hence the verdict - unchanged; any injective "
-        "renaming of a method's locals and any redundant parentheses leave the whole checker state unchanged; with "
-        "the register handling as found the first statement is false (witness proved). NOT proved: reordering of "
-        "method definitions, program output, and everything outside the fragment (parameters, block closures with "
+        "renaming of a method's locals and any redundant parentheses leave the whole checker state unchanged; any "
+        "permutation of method definitions with distinct names leaves the number of diagnostics unchanged; with "
+        "the register handling as found the first statement is false (witness proved). NOT proved: equality of "
+        "program output, and everything outside the fragment (parameters, block closures with "
         "explicit returns, generators/yield, if/while/do-catch/throw, arithmetic): these are covered by the "
         "metamorphic stream only, which runs every generated program and its edited variants on the real elk and "
         "requires equal verdict, equal number of diagnostics and equal stdout. For programs inside the fragment the "
@@ -741,7 +742,7 @@ def run(ctx):
     elk = vlib.build_elk()
     m = vlib.build_model_exact("C12")
     rng = ctx.rng(STREAM)
-    nprog = ctx.n(22, 700)
+    nprog = ctx.n(22, 150)
     fams = []
     dist = {}
     for i in range(nprog):
@@ -750,7 +751,7 @@ def run(ctx):
             dist[k] = dist.get(k, 0) + v
         fams.append(("g%d" % i, prog, core))
     st_c = run_family(ctx, elk, m, corpus_programs(), "corpus", None)
-    st = run_family(ctx, elk, m, fams, "gen", ctx.n(7, 60))
+    st = run_family(ctx, elk, m, fams, "gen", ctx.n(7, 20))
     tot = lambda k: st[k] + st_c[k]
     by_edit = dict(st["by_edit"])
     for k, v in st_c["by_edit"].items():
